@@ -93,3 +93,10 @@ Proof. repeat split; vm_compute; reflexivity. Qed.
 Example sbs_bounds_cover_the_decoder : 2 ^ 31 <= 9223372036854775808 /\ 4 ^ 16 <= 9223372036854775808
   /\ 8 ^ 11 <= 9223372036854775808 /\ 32 ^ 7 <= 9223372036854775808.
 Proof. repeat split; vm_compute; discriminate. Qed.
+
+(* ---- the inputs that trapped before /repo 9432562 ---- *)
+Example cov2_device_svg_at_former_traps :
+  cov2_get 10 20 65535 11 = Some None /\ cov2_get 10 20 65530 12 = Some (Some 65532)
+  /\ device_count 12 8 = Some 0 /\ device_count 0 65535 = Some 65536
+  /\ svg_doc_slice 4294967295 4294901760 6 = Some None.
+Proof. repeat split; vm_compute; reflexivity. Qed.
